@@ -18,9 +18,9 @@ import Vibrato.Model.LexCsv
 namespace Vibrato.Driver.Conn
 open Vibrato.Wire Vibrato.Scorer Vibrato.RawConnector
 
-/-- `utils::parse_csv_row` through the csv-core port. -/
+/-- `utils::parse_csv_row` through the csv-core port (repaired tree of finding F18). -/
 def csvRow (s : Str) : Outcome (List Str) :=
-  match Vibrato.LexCsv.parseCsvRow (String.ofList s) with
+  match Vibrato.LexCsv.parseCsvRow true (String.ofList s) with
   | .ok cells => .ok (cells.map String.toList)
   | .err => .err
   | .panic => .panic
